@@ -1,15 +1,15 @@
 PROP = dict(
     coq=["Queue/QueueHarness.vo"],
     legs=[
-        dict(driver="hqpath", binary="zqueue", quick=400, thorough=20000, shard=100,
+        dict(driver="hqpath", binary="zqueue", quick=400, thorough=6000, shard=100,
              monitors=["hops_roundtrip (pathToHops(hopsToPath h) = h)", "path_is_L_only_and_count_is_number_of_L"]),
-        dict(driver="lqdb", binary="zqueue", quick=480, thorough=12000, shard=40,
+        dict(driver="lqdb", binary="zqueue", quick=400, thorough=6000, shard=40,
              monitors=["lq_no_value_or_id_twice", "lq_add_skips_present_value_keeps_fields", "lq_delete_exactly_listed_ids",
                        "lq_get_hands_out_fresh_rows_and_claims_them"]),
-        dict(driver="hqflow", binary="zqueue", quick=32, thorough=400, shard=4, noshrink=True,
+        dict(driver="hqflow", binary="zqueue", quick=32, thorough=300, shard=4, noshrink=True,
              monitors=["hq_outlinks_delivered_once_with_text_via_hops", "hq_retry_same_batch_sizes_and_sender_bound",
                        "hq_seed_roundtrip_id_text_via_hops", "hq_acks_by_id", "hq_text_and_via_bytes_unchanged"]),
-        dict(driver="lqflow", binary="zqueue", quick=14, thorough=160, shard=2, noshrink=True,
+        dict(driver="lqflow", binary="zqueue", quick=14, thorough=100, shard=2, noshrink=True,
              monitors=["lq_no_value_twice_in_table", "lq_every_outlink_queued_with_fields", "lq_seed_roundtrip_id_text_via_hops",
                        "lq_acks_by_id"]),
     ],
